@@ -101,9 +101,16 @@ Supported(p, t) ==
        [] p = "keys" -> t \in KeyTypes                                                       \* map[T]int
        [] OTHER -> FALSE
 
-Forms == {"body", "pkgvar", "closure", "nested", "testfile", "curried"}
+\* where the derive call stands: a plain function body, a package-level variable initialiser, a
+\* closure, nested inside another derive call, a _test file, the one-argument curried form, and
+\* positions the AST walk must still reach: an argument of a builtin, of an ordinary function,
+\* an element of a composite literal, a method body, a goroutine, a conversion's operand
+Forms == {"body", "pkgvar", "closure", "nested", "testfile", "curried",
+          "builtinarg", "funcarg", "composite", "method", "goroutine", "deferred"}
+HasResult(p) == p # "deepcopy"
 FormOK(p, f) == CASE f = "curried" -> p \in {"equal", "compare"}
                   [] f = "nested" -> p \in {"equal", "compare", "hash", "sort", "keys", "contains", "unique", "min", "max"}
+                  [] f \in {"builtinarg", "funcarg", "composite"} -> HasResult(p)
                   [] OTHER -> TRUE
 
 VARIABLES case, done
